@@ -84,6 +84,7 @@ func init() {
 	})
 	register(&PropConfig{
 		ID:       "C01",
+		Replay:   replayC01,
 		Packages: []string{"."},
 		Corpus:   true,
 		Extra:    func(r *Run) { r.VerifyGenerated(r.corpus, "C01") },
@@ -140,6 +141,7 @@ func init() {
 	})
 	register(&PropConfig{
 		ID:       "C10",
+		Replay:   replayC10,
 		Packages: []string{"./runtime", "."},
 		Corpus:   true,
 		Extra:    func(r *Run) { r.VerifyGenerated(r.corpus, "C10") },
